@@ -180,7 +180,7 @@ def emission_order(ctx, s, fn):
     ok = all(b is not None for _, b in seq)
     if ok:
         for (n1, b1), (n2, b2) in zip(seq, seq[1:]):
-            if b1 in cfg.reach_from([b2]):
+            if b1 in s.reach(fn, [b2]):
                 ok = False
     after = main_loop is not None and all(b is not None and b not in loops[main_loop] for _, b in seq)
     s.add("S-ORDER", fn, "layout-order-emission", "ids<authors<kinds<tags", fn.sp, PROVED if (ok and after) else VIOLATION,
